@@ -1,3 +1,4 @@
+import CG.Proofs.C10NxTopo
 import CG.Proofs.WFRun
 import CG.Proofs.TopoOrders
 #print axioms CG.TopoThm.kahn_lag_sorted
@@ -23,3 +24,11 @@ import CG.Proofs.TopoOrders
 #print axioms CG.C13.replaceNode_accepted
 #print axioms CG.C13.replaceNode_relag_against_time_refused
 #print axioms CG.replaceNodeBase_exact
+
+#print axioms CG.NxTopoProofs.nxLexTopo_valid
+#print axioms CG.NxTopoProofs.nxLexTopo_sorted
+#print axioms CG.NxTopoProofs.nxLexTopo_unfeasible_iff
+#print axioms CG.NxTopoProofs.nxLexTopo_total
+#print axioms CG.NxTopoProofs.nxLexTopo_eq_kahnByLag
+#print axioms CG.NxTopoRuns.lexLoop_spec
+#print axioms CG.NxTopoRuns.lexLoop_sorted
